@@ -178,6 +178,24 @@ func C03(c *Ctx) {
 		c.Programs++
 		c03One(c, s, r, dir)
 	}
+	// U: the SCC-based set propagation itself, on symbolic relations
+	eng, err := LoadRepo("LALR")
+	if err != nil {
+		c.Inconclusive("%v", err)
+		return
+	}
+	shapes := [][2]int{{3, 3}, {4, 4}}
+	if c.Thorough() {
+		shapes = append(shapes, [2]int{3, 5}, [2]int{4, 5}, [2]int{5, 4})
+	}
+	c.Harnesses = append(c.Harnesses, "harness/LALR/zz_verif_digraph.go:VerifDigraph")
+	c.Bound("U: Digraph/Traverse/Union on every relation with (nodes, edges) in %v, visiting order fixed without loss of generality, singleton base sets", shapes)
+	c.Explanation += " (U) LALR.Digraph/Traverse/Union run symbolically on relations whose edge endpoints and visiting order are solver choices; the computed sets must equal the reflexive-transitive closure (Warshall reference)."
+	for _, sh := range shapes {
+		c.RunSym(SymJob{Name: fmt.Sprintf("digraph n=%d E=%d", sh[0], sh[1]), Eng: eng, PkgPath: RepoModule + "/LALR", Entry: "VerifDigraph",
+			Args: []int{sh[0], sh[1]}, Replay: ReplaySpec{Kind: "repo", PkgDirs: []string{"LALR"}}})
+	}
+	c.NeedCovers("cycle", "acyclic")
 }
 
 func c03One(c *Ctx, s *corpus.Spec, r YRes, dir string) {
